@@ -572,10 +572,10 @@ theorem C08_top_restart (cfg : Cfg) (as : List Attr) (rest : List Tok) (progs : 
 
 /-- any other element of the stream namespace ends the session -/
 theorem C08_top_unknown (cfg : Cfg) (l : String) (as : List Attr) (rest : List Tok) (progs : List Prog)
-    (h1 : l ≠ "error") (h2 : l ≠ "stream") :
+    (h1 : l ≠ "error") (h2 : l ≠ "stream") (h3 : l ≠ wsCloseMark) :
     serve cfg (.start ⟨nsStream, l⟩ as :: rest) progs
       = { invs := [], written := [], result := .error .unknownElem } := by
-  simp [serve, serveF, handleInputStream, RS.next, RS.init, verdict, h1, h2]
+  simp [serve, serveF, handleInputStream, RS.next, RS.init, verdict, h1, h2, h3]
 
 /-- **a received stream error is returned as such**: the session ends with that error (its
 condition is the one the peer sent) and no handler runs -/
